@@ -3,7 +3,7 @@
 cd "$(dirname "$0")/.."
 tier=${1:-quick}
 rc=0
-for i in $(seq -w 1 20); do
+for i in ${ONLY:-$(seq -w 1 20)}; do
   id=C$i
   start=$(date +%s)
   out=$(./check $id --tier $tier 2>/dev/null)
